@@ -3,6 +3,7 @@ import Rare.Proofs.C13Algo
 import Rare.Proofs.C13Real
 import Rare.Proofs.C13GoSort
 import Rare.Proofs.F64Parse
+import Rare.Proofs.C13Date
 import Rare.Gen.C13
 /-!
 # C13 – Output ordering is a deterministic function of the aggregated data
@@ -693,6 +694,161 @@ theorem sort_name_spellings :
     ∧ lookupMode lowerK [110, 117, 109, 101, 114, 0xC4, 0xB0, 99] = some .numeric
     ∧ lookupMode lowerK [118, 97, 108, 117, 0xC3, 0xA9] = none
     ∧ lookupMode lowerK (asc "Context") = some .contextual := by
+  decide +kernel
+
+/-! ## `date` over the REAL `time.Parse` (round 4)
+
+`timeParseNs layout key` (`Rare/Model/C13Date.lean`) is the instant `time.Parse(layout, key)` returns –
+Go's layout tokenizer and parser as modelled for C18, instant = wall clock − zone offset written in
+the key – and `Equal` / `Before` compare instants.  `layoutLib layouts lay` is the date library in
+which only `dateparse.ParseFormat` (`lay`, returning the layout text) is still an oracle.
+`realChrono l` = rank `(instant under l, text)`. -/
+
+/-- For every layout: (instant, then text) is a strict total order on ALL byte strings. -/
+theorem date_real_strict_total (l : Bytes) : StrictTotalOn (fun _ => True) (realChrono l) :=
+  byRank_key_strictTotal _ intLt_strictTotal
+
+/-- **`ByDate` on a set of keys that all have the inferred layout `l` and parse with it** answers, along
+every adaptive comparison sequence (whatever was compared before, whichever key was seen first),
+the strict total order (instant, then text) – for ALL such sets, including keys that denote the same
+instant in different zones or spellings. -/
+theorem date_real_order (layouts : List Bytes) (lay : Key → Option Bytes) (l : Bytes) (hl : l ∈ layouts)
+    (keys : List Key) (hlay : ∀ k ∈ keys, lay k = some l) (hp : ∀ k ∈ keys, (timeParseNs l k).isSome = true)
+    {ρ : Type} (alg : Algo Key ρ) (hw : Algo.Within (· ∈ keys) alg) :
+    (Algo.run (byDateWithContextual (realOracle (layoutLib layouts lay)) sortSets) ({}, {}, ()) alg).1
+      = Algo.runPure (realChrono l) alg :=
+  (date_real_faithful layouts lay l hl _ _ (· ∈ keys) hlay hp).run_eq alg hw
+
+/-- … hence `--sort date[:asc|:desc|:reverse]` of such rows: every arrival order gives the same
+sequence, the sorted arrangement under (instant, text) (reversed when asked). -/
+theorem date_real_perm_invariant (layouts : List Bytes) (lay : Key → Option Bytes) (l : Bytes) (hl : l ∈ layouts)
+    (rev : Bool) (alg : List NV → Algo NV (List NV)) (hc : SortContract alg)
+    (items a1 a2 : List NV) (hnd : (items.map (·.name)).Nodup) (h1 : a1.Perm items) (h2 : a2.Perm items)
+    (hne : items ≠ [])
+    (hlay : ∀ r ∈ items, lay r.name = some l) (hp : ∀ r ∈ items, (timeParseNs l r.name).isSome = true) :
+    let o := realOracle (layoutLib layouts lay)
+    (Algo.run (finalSorter o sortSets .date rev).cmp (finalSorter o sortSets .date rev).init (alg a1)).1
+      = (Algo.run (finalSorter o sortSets .date rev).cmp (finalSorter o sortSets .date rev).init (alg a2)).1
+    ∧ (Algo.run (finalSorter o sortSets .date rev).cmp (finalSorter o sortSets .date rev).init (alg a1)).1
+      = isort (if rev then revLess (fun a b => realChrono l a.name b.name) else fun a b => realChrono l a.name b.name) items := by
+  intro o
+  have hk1 : ∀ k ∈ items.map (·.name), lay k = some l := by
+    intro k hk
+    obtain ⟨r, hr, rfl⟩ := List.mem_map.mp hk
+    exact hlay r hr
+  have hk2 : ∀ k ∈ items.map (·.name), (timeParseNs l k).isSome = true := by
+    intro k hk
+    obtain ⟨r, hr, rfl⟩ := List.mem_map.mp hk
+    exact hp r hr
+  obtain ⟨hu, hspec⟩ := dateUniform_real layouts lay l hl sortSets (items.map (·.name)) hk1 hk2
+  have hne' : items.map (·.name) ≠ [] := by
+    intro h
+    exact hne (List.map_eq_nil_iff.mp h)
+  have e : finalSpecLess o sortSets items .date rev
+      = (if rev then revLess (fun a b => realChrono l a.name b.name) else fun a b => realChrono l a.name b.name) := by
+    unfold finalSpecLess modeSpecLess
+    simp only
+    rw [hspec hne']
+  rw [sort_result o sortSets .date rev alg hc items a1 hnd h1 hu, sort_result o sortSets .date rev alg hc items a2 hnd h2 hu, e]
+  exact ⟨rfl, rfl⟩
+
+/-- A fresh closure on two keys that parse with the layout inferred from the first: the earlier
+instant first – whatever the wall clocks say – and ONE instant written twice by text. -/
+theorem date_real_chronological {σ : Type} (layouts : List Bytes) (lay : Key → Option Bytes) (l : Bytes) (hl : l ∈ layouts)
+    (fb : SCmp Key σ) (s0 : σ) (a b : Key) (x y : Int)
+    (hlay : lay a = some l) (ha : timeParseNs l a = some x) (hb : timeParseNs l b = some y) :
+    (x < y → (byDate (realOracle (layoutLib layouts lay)) fb ({}, s0) a b).1 = true)
+    ∧ (y < x → (byDate (realOracle (layoutLib layouts lay)) fb ({}, s0) a b).1 = false)
+    ∧ (x = y → (byDate (realOracle (layoutLib layouts lay)) fb ({}, s0) a b).1 = bytesLt a b) := by
+  rw [byDate_fresh_real layouts lay l hl fb s0 a b x y hlay ha hb, byDateParsed_eq]
+  refine ⟨fun h => ?_, fun h => ?_, fun h => ?_⟩
+  · have : x ≠ y := by omega
+    simp [this, h]
+  · have h1 : x ≠ y := by omega
+    have h2 : ¬ x < y := by omega
+    simp [h1, h2]
+  · simp [h]
+
+open C18 in
+/-- **One instant in two zones** (composition with C18's `format_parse_roundtrip`): for EVERY layout
+of the round-trip class that carries the instant (date, time to the second, numeric offset,
+four-digit year – e.g. `2006-01-02T15:04:05-0700`), every two instants and every two zone offsets
+(whole minutes, |offset| < 25 h): the keys `time.Format` prints for them are ordered by INSTANT,
+and two zone spellings of one instant by text – never left unordered. -/
+theorem date_zones_same_instant {σ : Type} (layout : Bytes) (hRT : RT (tokenize layout) = true)
+    (hC : carriesInstant (tokenize layout) = true)
+    (u1 u2 off1 off2 : Int) (abbr1 abbr2 : Bytes) (ho1 : OffOK off1) (ho2 : OffOK off2)
+    (hy1 : 0 ≤ (civilOf u1 off1).y ∧ (civilOf u1 off1).y ≤ 9999)
+    (hy2 : 0 ≤ (civilOf u2 off2).y ∧ (civilOf u2 off2).y ≤ 9999)
+    (ha1 : Tok.std .tz ∈ tokenize layout → AbbrOK abbr1 off1)
+    (ha2 : Tok.std .tz ∈ tokenize layout → AbbrOK abbr2 off2)
+    (layouts : List Bytes) (lay : Key → Option Bytes) (hl : layout ∈ layouts)
+    (hlay : lay (formatLayout layout (timeVOf u1 off1 abbr1)) = some layout) (fb : SCmp Key σ) (s0 : σ) :
+    let k1 := formatLayout layout (timeVOf u1 off1 abbr1)
+    let k2 := formatLayout layout (timeVOf u2 off2 abbr2)
+    (u1 < u2 → (byDate (realOracle (layoutLib layouts lay)) fb ({}, s0) k1 k2).1 = true)
+    ∧ (u2 < u1 → (byDate (realOracle (layoutLib layouts lay)) fb ({}, s0) k1 k2).1 = false)
+    ∧ (u1 = u2 → (byDate (realOracle (layoutLib layouts lay)) fb ({}, s0) k1 k2).1 = bytesLt k1 k2) := by
+  intro k1 k2
+  have p1 := timeParseNs_format layout hRT hC u1 off1 abbr1 ho1 hy1 ha1
+  have p2 := timeParseNs_format layout hRT hC u2 off2 abbr2 ho2 hy2 ha2
+  obtain ⟨c1, c2, c3⟩ := date_real_chronological layouts lay layout hl fb s0 k1 k2 _ _ hlay p1 p2
+  exact ⟨fun h => c1 (by omega), fun h => c2 (by omega), fun h => c3 (by omega)⟩
+
+/-- The layout dateparse infers for `2022-09-03T10:00:00+0000`. -/
+def zoneLayout : Bytes := asc "2006-01-02T15:04:05-0700"
+
+/-- 10:00 UTC of 2022-09-03 written in three zones, and two other instants of that day -/
+def zoneKeys : List Key := [asc "2022-09-03T09:30:00+0000", asc "2022-09-03T10:00:00+0000",
+  asc "2022-09-03T12:00:00+0200", asc "2022-09-03T05:00:00-0500", asc "2022-09-03T11:15:00+0000"]
+
+/-- `date_zones_same_instant` is not vacuous and `timeParseNs` computes: the layout is in the class;
+the three zone spellings of 10:00 UTC are what `Format` prints and parse to the one instant
+1662199200 s; the closure, whatever arrival order Go's insertion sort is handed, returns the same
+sequence – by instant, the tie by text (`05:00-0500` < `10:00+0000` < `12:00+0200`). -/
+theorem date_zone_witness :
+    C18.RT (C18.tokenize zoneLayout) = true ∧ C18.carriesInstant (C18.tokenize zoneLayout) = true
+    ∧ C18.formatLayout zoneLayout (C18.timeVOf 1662199200 7200 []) = asc "2022-09-03T12:00:00+0200"
+    ∧ C18.formatLayout zoneLayout (C18.timeVOf 1662199200 (-18000) []) = asc "2022-09-03T05:00:00-0500"
+    ∧ zoneKeys.map (timeParseNs zoneLayout)
+        = [some 1662197400000000000, some 1662199200000000000, some 1662199200000000000, some 1662199200000000000,
+           some 1662203700000000000]
+    ∧ (∀ arrival ∈ [[1, 2, 3], [1, 3, 2], [2, 1, 3], [2, 3, 1], [3, 1, 2], [3, 2, 1], [0, 1, 2, 3, 4], [4, 3, 2, 1, 0], [2, 4, 1, 0, 3]],
+        (goInsertionSort (byDateWithContextual (realOracle (oneLayoutLib zoneLayout)) sortSets) ({}, {}, ())
+            (arrival.map (fun i => zoneKeys.getD i []))).1
+          = (isort (realChrono zoneLayout) zoneKeys).filter (fun k => arrival.any (fun i => zoneKeys.getD i [] == k)))
+    ∧ isort (realChrono zoneLayout) zoneKeys
+        = [asc "2022-09-03T09:30:00+0000", asc "2022-09-03T05:00:00-0500", asc "2022-09-03T10:00:00+0000",
+           asc "2022-09-03T12:00:00+0200", asc "2022-09-03T11:15:00+0000"] := by
+  decide +kernel
+
+/-- What the modelled `time.Parse` does with the spellings the property names (kernel computation;
+the same table is compared with the real `time.Parse` by the `tparse` op): a fraction the layout
+does not mention is accepted and counts; `Z`, `+00:00` and `-05:45` under `Z07:00`; zone
+abbreviations keep the wall clock (`time.Local` = UTC knows no names – also `GMT+2`); month names in
+any case; out-of-range fields, a missing zone and a one-digit field under a padded layout are errors. -/
+theorem date_parse_spellings :
+    timeParseNs (asc "2006-01-02 15:04:05") (asc "2022-09-03 10:00:00") = some 1662199200000000000
+    ∧ timeParseNs (asc "2006-01-02 15:04:05") (asc "2022-09-03 10:00:00.000") = some 1662199200000000000
+    ∧ timeParseNs (asc "2006-01-02 15:04:05") (asc "2022-09-03 10:00:00,5") = some 1662199200500000000
+    ∧ timeParseNs (asc "2006-01-02 15:04:05.000") (asc "2022-09-03 10:00:00") = none
+    ∧ timeParseNs (asc "2006-01-02") (asc "2022-09-03") = some 1662163200000000000
+    ∧ timeParseNs (asc "2006-01-02") (asc "2022-9-3") = none
+    ∧ timeParseNs (asc "2006-1-2") (asc "2022-09-03") = some 1662163200000000000
+    ∧ timeParseNs (asc "2006-01-02T15:04:05Z07:00") (asc "2022-09-03T10:00:00Z") = some 1662199200000000000
+    ∧ timeParseNs (asc "2006-01-02T15:04:05Z07:00") (asc "2022-09-03T10:00:00+00:00") = some 1662199200000000000
+    ∧ timeParseNs (asc "2006-01-02T15:04:05Z07:00") (asc "2022-09-03T04:15:00-05:45") = some 1662199200000000000
+    ∧ timeParseNs (asc "2006-01-02 15:04:05 MST") (asc "2022-09-03 10:00:00 PST") = some 1662199200000000000
+    ∧ timeParseNs (asc "2006-01-02 15:04:05 MST") (asc "2022-09-03 10:00:00 GMT+2") = some 1662199200000000000
+    ∧ timeParseNs (asc "2006-01-02 15:04:05 MST") (asc "2022-09-03 10:00:00 UTC") = some 1662199200000000000
+    ∧ timeParseNs (asc "Jan 2, 2006") (asc "SEP 3, 2022") = some 1662163200000000000
+    ∧ timeParseNs (asc "02/Jan/2006:15:04:05 -0700") (asc "03/Sep/2022:15:30:00 +0530") = some 1662199200000000000
+    ∧ timeParseNs zoneLayout (asc "2022-09-03T10:00:00") = none
+    ∧ timeParseNs zoneLayout (asc "2022-09-03T24:00:00+0000") = none
+    ∧ timeParseNs zoneLayout (asc "2022-02-29T10:00:00+0000") = none
+    ∧ timeParseNs zoneLayout (asc "2022-09-03T10:00:00+2500") = none
+    ∧ timeParseNs zoneLayout (asc "1969-12-31T23:59:59+0000") = some (-1000000000)
+    ∧ layoutModelled zoneLayout = true ∧ layoutModelled (asc "2006-002") = false := by
   decide +kernel
 
 /-! ## non-vacuity -/
